@@ -108,7 +108,9 @@ func (n *Net) Listen(node, port string) (*Listener, error) {
 }
 
 func (l *Listener) Accept() (net.Conn, error) {
-	simrt.AdoptIn(l.node+":lis"+l.port, l.group)
+	if simrt.AdoptSoft(l.node+":lis"+l.port, l.group) {
+		return nil, net.ErrClosed
+	}
 	for {
 		l.mu.Lock()
 		if l.closed {
@@ -127,7 +129,9 @@ func (l *Listener) Accept() (net.Conn, error) {
 		case <-l.net.S.AbortCh():
 			return nil, net.ErrClosed
 		}
-		simrt.YieldMust("accept " + l.node)
+		if simrt.YieldMustSoft("accept " + l.node) {
+			return nil, net.ErrClosed
+		}
 	}
 }
 
@@ -249,13 +253,16 @@ func (n *Net) Dial(ctx context.Context, from, address string) (net.Conn, error) 
 	select {
 	case r = <-res:
 	case <-ctx.Done():
-		simrt.YieldMust("dial ctx")
+		if simrt.YieldMustSoft("dial ctx") {
+			return nil, net.ErrClosed
+		}
 		return nil, ctx.Err()
 	case <-n.S.AbortCh():
-		n.S.ExitIfAborting()
 		return nil, net.ErrClosed
 	}
-	simrt.YieldMust("dial " + from)
+	if simrt.YieldMustSoft("dial " + from) {
+		return nil, net.ErrClosed
+	}
 	if r.err != nil {
 		n.S.Logf("dial %s -> %s refused", from, to)
 		return nil, r.err
@@ -347,7 +354,9 @@ func (c *Conn) signal() {
 }
 
 func (c *Conn) Read(p []byte) (int, error) {
-	simrt.AdoptIn(c.label(), c.group)
+	if simrt.AdoptSoft(c.label(), c.group) {
+		return 0, net.ErrClosed
+	}
 	c.mu.Lock()
 	c.NRead++
 	if c.FailReadAt != 0 && c.NRead == c.FailReadAt && c.broken == nil {
@@ -386,7 +395,9 @@ func (c *Conn) Read(p []byte) (int, error) {
 			c.peer.credit(n)
 			// the read has completed; what the caller does with the data may be
 			// overtaken by other goroutines (optional schedule point)
-			simrt.Yield("netread-done " + c.Name())
+			if simrt.YieldSoft("netread-done " + c.Name()) {
+				return 0, net.ErrClosed
+			}
 			return n, nil
 		}
 		if c.rEOF {
@@ -409,7 +420,6 @@ func (c *Conn) Read(p []byte) (int, error) {
 			if tm != nil {
 				tm.Stop()
 			}
-			c.net.S.ExitIfAborting()
 			return 0, net.ErrClosed
 		}
 		if tm != nil {
@@ -433,12 +443,16 @@ func (c *Conn) Read(p []byte) (int, error) {
 				continue
 			}
 		}
-		simrt.YieldMust("netread " + c.Name())
+		if simrt.YieldMustSoft("netread " + c.Name()) {
+			return 0, net.ErrClosed
+		}
 	}
 }
 
 func (c *Conn) Write(p []byte) (int, error) {
-	simrt.AdoptIn(c.label(), c.group)
+	if simrt.AdoptSoft(c.label(), c.group) {
+		return 0, net.ErrClosed
+	}
 	c.mu.Lock()
 	c.NWrite++
 	if c.FailWriteAt != 0 && c.NWrite == c.FailWriteAt && c.broken == nil {
@@ -477,13 +491,14 @@ func (c *Conn) Write(p []byte) (int, error) {
 		case <-tc:
 			timedOut = true
 		case <-c.net.S.AbortCh():
-			c.net.S.ExitIfAborting()
 			return 0, net.ErrClosed
 		}
 		if tm != nil {
 			tm.Stop()
 		}
-		simrt.YieldMust("netwrite blocked " + c.Name())
+		if simrt.YieldMustSoft("netwrite blocked " + c.Name()) {
+			return 0, net.ErrClosed
+		}
 		c.mu.Lock()
 		if c.closed {
 			c.mu.Unlock()
